@@ -683,6 +683,7 @@ def portuguese():
     rows.append({"word": ",", "cls": "comma", "digits": "", "marker": None, "expect": None, "desc": "a comma is never a number word (it ends the number in progress)"})
     rows.append({"word": "e", "cls": "link", "digits": "", "marker": None, "expect": None, "desc": "the conjunction: a link word once the number has two digits (not right after `cem`); it lifts the ban on a following number below one hundred"})
     rows.append({"word": "mil", "cls": "scale", "digits": "", "marker": None, "expect": "1000", "desc": "multiplies the last group by 1000 (implicit one on an empty group; not `um mil`, not `cento mil`)"})
+    rows.append({"word": "vírgula", "cls": "sep", "digits": "", "marker": None, "expect": None, "desc": "the decimal separator is not a number word: refused outright, the digits untouched"})
 
     def strip_all(w, sfx):
         while sfx and w.endswith(sfx):
@@ -720,6 +721,8 @@ def portuguese():
             return f"!pt_model({W(',')}, o).ok && !(pt_model({W(',')}, o).err is Incomplete)"
         if r["cls"] == "link":
             return f"(o.marker is None) ==> res_same(pt_model({W('e')}, o), pt_fin(if size_of(o) >= 2 && !pt_only_mult(o) {{ err_res(o, Error::Incomplete) }} else {{ err_res(o, Error::NaN) }}, 0, MorphologicalMarker::None))"
+        if r["cls"] == "sep":
+            return f"!pt_model({W(r['word'])}, o).ok && !(pt_model({W(r['word'])}, o).err is Incomplete) && core_same(pt_model({W(r['word'])}, o).v, o)"
         if r["cls"] == "scale":
             return f"(o.marker is None) ==> res_same(pt_model({W('mil')}, o), pt_fin(pt_mil_base(o), 0, MorphologicalMarker::None))"
         cls = {"zero": 0, "unit": 1, "small": 2, "cem": 3, "hundred": 4, "ordunit": 5, "ordnono": 6}[r["cls"]]
@@ -760,7 +763,9 @@ def portuguese():
     sel("pt_hund_w", "cento, duzentos .. novecentos: the word of 100 * d", hw, 1)
     disp("lemma_pt_hund", "pt_hund_w", hw, 1, "pt_row(d3((48 + d) as u8, 48u8, 48u8), 0, 4, o, pt_model(pt_hund_w(d), o))")
     byw = {r["word"]: r for r in rows}
-    for nm, w in [("lemma_pt_cem", "cem"), ("lemma_pt_e", "e"), ("lemma_pt_mil", "mil"), ("lemma_pt_zero", "zero")]:
+    idx = {r["word"]: k for k, r in enumerate(rows)}
+    d.append(f"pub proof fn lemma_pt_link_sep() ensures {W('e')} != {W('vírgula')} {{ lemma_pt_word_{idx['vírgula']}(); lemma_pt_word_{idx['e']}(); pt_ne_{wname(lemma_of('vírgula'))}(); }}")
+    for nm, w in [("lemma_pt_cem", "cem"), ("lemma_pt_e", "e"), ("lemma_pt_mil", "mil"), ("lemma_pt_zero", "zero"), ("lemma_pt_virgula", "vírgula")]:
         d.append(f"pub proof fn {nm}(o: DsView) ensures {row_stmt(byw[w])} {{ {c}_rows_{modof[w]}::lemma_{c}_row_{wname(w)}(o); }}")
     open(os.path.join(T, "pt_dispatch.inc"), "w", encoding="utf-8").write("\n".join(d) + "\n")
     print(c + ":", len(arms), "arms,", len(rows), "rows,", len(allwords), "words")
